@@ -62,6 +62,14 @@ fn parse_ifdata_from_spec(
 ) -> Option<GenericIfData> {
     let pos = parser.get_tokenpos();
     if let Ok(ifdata) = parse_ifdata_item(parser, context, spec) {
+        // comments are not part of the data: one that stands before the /end does not make the content invalid
+        while let Some(A2lToken {
+            ttype: A2lTokenType::Comment,
+            ..
+        }) = parser.peek_token()
+        {
+            let _ = parser.get_token(context);
+        }
         if let Some(A2lToken {
             ttype: A2lTokenType::End,
             ..
